@@ -124,6 +124,7 @@ def step (r : Reg Inst) (line : String) : Reg Inst × Option String :=
                        else if name == "RunString" then some .rerun else none)
   | ["g6", _, name, id] => other name id none
   | ["cell", id, _, _] => other "GetSelectedOutputValue" id none
+  | ["cell", id, _, _, _] => other "GetSelectedOutputValue" id none
   | ["setcb", via, id] =>
     match id.toInt? with
     | some id => (r, some (if live id then "I 0" else badLine (if via == "c" || via == "p" then "SetBasicCallback" else "SetBasicFortranCallback")))
